@@ -27,6 +27,8 @@ import scionnet_common as sn
 
 def run(c):
     binp = c.cargo_build("vh-pocket", bin="scionnet")
+    if c.replay and sn.replay_one(c, binp, "C04", "c04", False):
+        return
     thorough = c.tier == "thorough"
     c.assumptions += [
         "reference = TLA+ RefPaths over the segments of the instance; interface sequences identify routes",
